@@ -329,6 +329,39 @@ def wrapInit (ctx : ImplContext) (hint : TypeHint) (namedFields : Bool) (frags :
   | .unspecified => .ok [if namedFields then brace frags else paren frags]
   | .unit => panicAt "expand.rs:struct_init_block_inner:unreachable(2)"
 
+/-- a `#[ghost]` applicable to this conversion that declares no default -/
+def ghostNoDefault (ctx : ImplContext) (attrs : MemberAttrs) : Bool :=
+  match attrs.ghost ctx.ty ctx.kind with
+  | some g => g.action.isNone
+  | none => false
+
+/-- members that contribute no line to a conversion (the two `members.next(); continue;` guards of
+    `struct_init_block_inner`): ghosts and parent members on the Into side, ghosts without a default on the From side -/
+def fieldSkipped (ctx : ImplContext) (f : Field) : Bool :=
+  (!ctx.kind.isFrom && ((f.attrs.ghost ctx.ty ctx.kind).isSome || f.attrs.hasParentAttr ctx.ty)) ||
+  (ctx.kind.isFrom && ghostNoDefault ctx f.attrs)
+
+/-- the tokens `..update` contributes (last fragment of a struct body) -/
+def updateToks (ctx : ImplContext) : TS :=
+  match ctx.structAttr.update with
+  | some u => [j '.', p '.'] ++ quoteAction u none ctx
+  | none => []
+
+/-- the struct-level `#[ghosts(..)]` lines emitted at one level of the descent (Into / IntoExisting only): entries
+    without child path at the top level, entries addressed to exactly this child path inside a child -/
+def structGhostLines (ctx : ImplContext) (fieldCtx : FieldCtx) : E TS :=
+  if !ctx.kind.isFrom then
+    match ctx.input.attrs.ghostsAttr ctx.ty ctx.kind with
+    | some ga =>
+      ga.ghostData.foldlM (fun (acc : TS) x => do
+        match x.childPath, fieldCtx with
+        | some _, some (cp, _, d) =>
+          if (← x.getChildPathStr none) == (← cp.getStr (some d)) then return acc ++ (← renderGhostLine x ctx) else return acc
+        | none, none => return acc ++ (← renderGhostLine x ctx)
+        | _, _ => return acc) []
+    | none => pure []
+  else pure []
+
 mutual
 /-- `struct_init_block_inner`; returns the tokens and what is left of the cursor -/
 def structInitBlockInner : Nat → List FieldContainer → Bool → ImplContext → FieldCtx → E (TS × List FieldContainer)
@@ -339,22 +372,9 @@ def structInitBlockInner : Nat → List FieldContainer → Bool → ImplContext 
       | _ => ctx.structAttr.typeHint
     let (frags, rest) ← structInitLoop fuel members namedFields ctx fieldCtx typeHint [] 0
     -- struct-level ghosts of the Into side
-    let frags ← (do
-      if !ctx.kind.isFrom then
-        match ctx.input.attrs.ghostsAttr ctx.ty ctx.kind with
-        | some ga =>
-          ga.ghostData.foldlM (fun (acc : TS) x => do
-            match x.childPath, fieldCtx with
-            | some _, some (cp, _, d) =>
-              if (← x.getChildPathStr none) == (← cp.getStr (some d)) then return acc ++ (← renderGhostLine x ctx) else return acc
-            | none, none => return acc ++ (← renderGhostLine x ctx)
-            | _, _ => return acc) frags
-        | none => pure frags
-      else pure frags)
-    let frags := match ctx.structAttr.update with
-      | some u => frags ++ [j '.', p '.'] ++ quoteAction u none ctx
-      | none => frags
-    let out ← wrapInit ctx typeHint namedFields frags
+    let ghosts ← structGhostLines ctx fieldCtx
+    let frags := frags ++ ghosts
+    let out ← wrapInit ctx typeHint namedFields (frags ++ updateToks ctx)
     return (out, rest)
 
 /-- the `while let Some(..) = members.peek()` loop -/
@@ -372,9 +392,7 @@ def structInitLoop : Nat → List FieldContainer → Bool → ImplContext → Fi
     match fc.fieldData with
     | .field f =>
       let attrs := f.attrs
-      if !ctx.kind.isFrom && ((attrs.ghost ctx.ty ctx.kind).isSome || attrs.hasParentAttr ctx.ty) then
-        structInitLoop fuel rest namedFields ctx fieldCtx typeHint frags idx
-      else if ctx.kind.isFrom && (match attrs.ghost ctx.ty ctx.kind with | some g => g.action.isNone | none => false) then
+      if fieldSkipped ctx f then
         structInitLoop fuel rest namedFields ctx fieldCtx typeHint frags idx
       else
         match attrs.child ctx.ty with
@@ -584,26 +602,38 @@ def renderEnumLine (v : Variant) (ctx : ImplContext) : E TS := do
     return src ++ cc ++ [i ident] ++ destr ++ fatArrow ++ rightSide ++ [comma]
   | _, _, _, _ => panicAt "expand.rs:render_enum_line:todo"
 
+/-- which variants contribute an arm to a conversion: ghost variants are skipped on the From side, and on the
+    Into side when they carry no default -/
+def variantContributes (ctx : ImplContext) (v : Variant) : Bool :=
+  !(ctx.kind.isFrom && (v.attrs.ghost ctx.ty ctx.kind).isSome) &&
+  !(!ctx.kind.isFrom && ghostNoDefault ctx v.attrs)
+
+/-- one iteration of the `while let Some(..) = members.peek()` loop of `enum_init_block_inner` over a variant -/
+def enumArmStep (ctx : ImplContext) (acc : TS) (v : Variant) : E TS :=
+  if variantContributes ctx v then do return acc ++ (← renderEnumLine v ctx) else pure acc
+
+/-- the `#[ghosts(..)]` entries selected for this counterpart and kind -/
+def enumGhostData (input : Enum) (ctx : ImplContext) : List GhostData :=
+  match input.attrs.ghostsAttr ctx.ty ctx.kind with
+  | some ga => ga.ghostData
+  | none => []
+
+/-- the `_ => default` arm and the condition under which `enum_init_block_inner` emits it -/
+def defaultArm (input : Enum) (ctx : ImplContext) : TS :=
+  match ctx.structAttr.defaultCase with
+  | some dc =>
+    if (ctx.kind.isFrom && (input.variants.any (fun v => (v.attrs.lit ctx.ty).isSome || (v.attrs.pat ctx.ty).isSome)
+          || (input.attrs.ghostsAttr ctx.ty ctx.kind).isSome))
+        || (!ctx.kind.isFrom && input.variants.any (fun v => (v.attrs.ghost ctx.ty ctx.kind).isSome)) then
+      [i "_"] ++ quoteAction dc none ctx
+    else []
+  | none => []
+
 /-- `enum_init_block` + `enum_init_block_inner` -/
 def enumInitBlock (input : Enum) (ctx : ImplContext) : E TS := do
-  let frags ← input.variants.foldlM (fun (acc : TS) v => do
-    let attrs := v.attrs
-    if ctx.kind.isFrom && (attrs.ghost ctx.ty ctx.kind).isSome then return acc
-    if !ctx.kind.isFrom && (match attrs.ghost ctx.ty ctx.kind with | some g => g.action.isNone | none => false) then return acc
-    return acc ++ (← renderEnumLine v ctx)) []
-  let ghostData := match input.attrs.ghostsAttr ctx.ty ctx.kind with
-    | some ga => ga.ghostData
-    | none => []
-  let frags ← ghostData.foldlM (fun (acc : TS) g => do return acc ++ (← renderEnumGhostLine g ctx)) frags
-  let frags := match ctx.structAttr.defaultCase with
-    | some dc =>
-      if (ctx.kind.isFrom && (input.variants.any (fun v => (v.attrs.lit ctx.ty).isSome || (v.attrs.pat ctx.ty).isSome)
-            || (input.attrs.ghostsAttr ctx.ty ctx.kind).isSome))
-          || (!ctx.kind.isFrom && input.variants.any (fun v => (v.attrs.ghost ctx.ty ctx.kind).isSome)) then
-        frags ++ [i "_"] ++ quoteAction dc none ctx
-      else frags
-    | none => frags
-  return [brace frags]
+  let frags ← input.variants.foldlM (enumArmStep ctx) []
+  let frags ← (enumGhostData input ctx).foldlM (fun (acc : TS) g => do return acc ++ (← renderEnumGhostLine g ctx)) frags
+  return [brace (frags ++ defaultArm input ctx)]
 
 /-- `struct_main_code_block` -/
 def structMainCodeBlock (input : Struct) (ctx : ImplContext) : E TS := do
